@@ -322,6 +322,9 @@ impl<'a> Runner<'a> {
                         // every other time: the equivalent document a JSON store hands back (object keys sorted)
                         if self.seq % 2 == 1 {
                             doc = serde_json::to_string(&serde_json::from_str::<Value>(&doc).unwrap()).unwrap();
+                        } else if self.seq % 4 == 2 {
+                            // ... or re-indented (whitespace between every token)
+                            doc = serde_json::to_string_pretty(&serde_json::from_str::<Value>(&doc).unwrap()).unwrap();
                         }
                         match serde_json::from_str::<Session>(&doc) {
                             Ok(copy) => {
